@@ -354,6 +354,7 @@ pub fn run_case(c: &Case, path: &std::path::Path, st: &mut GridStats, shard: &mu
         populate: false,
         txs: vec![c.build.clone()],
         origin: c.label.clone(),
+        pins: vec![],
     };
     let _ = std::fs::remove_file(path);
     let out = exec::run_history(&h, &ExecCfg::default(), path);
